@@ -21,8 +21,8 @@ pub struct Case {
 }
 
 pub fn echo_wreq() -> impl Strategy<Value = WReq> {
-    (gen_req::wreq(), 0u8..7, "[a-zA-Z0-9._~-]{1,6}", "[a-zA-Z0-9%._~-]{1,6}", prop::option::weighted(0.25, "[a-z0-9]{1,8}"), prop::option::weighted(0.12, prop_oneof![Just("close"), Just("Close"), Just("keep-alive")]), vec(gen_req::header_line(), 0..5)).prop_map(
-        |(mut w, kind, a, b, ctx, conn, fewer_headers)| {
+    (gen_req::wreq(), 0u8..7, "[a-zA-Z0-9._~-]{1,6}", "[a-zA-Z0-9%._~-]{1,6}", prop::option::weighted(0.25, "[a-z0-9]{1,8}"), prop::option::weighted(0.2, prop_oneof![3 => Just("close"), 2 => Just("Close"), 2 => Just("keep-alive"), 1 => Just("Keep-Alive"), 1 => Just("TE"), 1 => Just("keep-alive, TE"), 1 => Just("Upgrade, HTTP2-Settings"), 1 => Just("upgrade")]), vec(gen_req::header_line(), 0..5), prop::option::weighted(0.08, (0u8..3, any::<prop::sample::Index>()))).prop_map(
+        |(mut w, kind, a, b, ctx, conn, fewer_headers, poison)| {
             let query = w.target.split_once('?').map(|(_, q)| q.to_string());
             let b = if crate::oracle::http::pct_decode_strict(b.as_bytes()).ok().and_then(|x| String::from_utf8(x).ok()).is_some() { b } else { "b".to_string() };
             let mut t = echo::echo_target(kind, &a, &b);
@@ -39,6 +39,18 @@ pub fn echo_wreq() -> impl Strategy<Value = WReq> {
             }
             if let Some(c) = conn {
                 w.headers.push(("Connection".into(), c.to_string()));
+            }
+            if let Some((kind, at)) = poison {
+                // a request the parser refuses (400) after it has stored the header lines before the broken one;
+                // no body, so that nothing of it stays in the stream
+                w.body = None;
+                let line = match kind {
+                    0 => ("X-Bro\rken".to_string(), "v".to_string()),
+                    1 => ("Content-Length".to_string(), "1x".to_string()),
+                    _ => ("No colon here\r\nX-After".to_string(), "v".to_string()),
+                };
+                let i = at.index(w.headers.len() + 1);
+                w.headers.insert(i, line);
             }
             w
         },
@@ -69,6 +81,14 @@ pub fn wreq_in_domain(w: &WReq) -> bool {
     matches!(crate::oracle::http::parse_request(&b), Ok(r) if r.consumed == b.len() && r.head_len <= 900) && wants_close(w).is_some()
 }
 
+/// One of the three refused shapes `echo_wreq` builds: a CR inside a header name, a header line without a colon, a
+/// Content-Length that is not a number. No body, head below the buffer size; the strict reference parser rejects it too.
+pub fn is_poison(w: &WReq) -> bool {
+    let b = w.to_bytes();
+    let broken = w.headers.iter().any(|(n, v)| n.contains('\r') || (n.eq_ignore_ascii_case("Content-Length") && v.parse::<u64>().is_err()));
+    broken && w.body.is_none() && b.len() <= 900 && crate::oracle::http::parse_request(&b).is_err()
+}
+
 /// how many complete responses does this byte string hold? (HEAD flags by request order)
 pub fn count_complete(bytes: &[u8], heads: &[bool]) -> usize {
     let mut n = 0;
@@ -88,10 +108,11 @@ pub fn count_complete(bytes: &[u8], heads: &[bool]) -> usize {
 impl Property for C05 {
     type Case = Case;
     const ID: &'static str = "C05";
-    const RULE: &'static str = "generated: sequences of 1–6 well-formed requests (C02's generator: any method, escaped targets and queries, header sets in any case, repeated names, bodies of arbitrary bytes incl. leading NUL and sizes around the 1 KiB buffer) aimed at a fixed echo application (0–2 path params, a context-setting fang on one mount, handlers that reflect method, path, params, query, every header, payload length+hash and context presence), some with Connection: close; each request delivered as one segment, the next only after the previous response. Executed (a) through the session loop re-stated over a scripted reader (real clear/read/handle/send) and (b) for a share of cases through the real Session::manage over a socketpair. Oracle (metamorphic): the bytes of the k-th response equal the bytes the same request produces alone on a fresh connection (clock frozen); order preserved; nothing after Connection: close. Non-trivial = k ≥ 2 and an earlier request had a body, a custom header or set a context entry; distinct by case.";
+    const RULE: &'static str = "generated: sequences of 1–6 requests, well-formed ones (C02's generator: any method, escaped targets and queries, header sets in any case, repeated names, bodies of arbitrary bytes incl. leading NUL and sizes around the 1 KiB buffer) aimed at a fixed echo application (0–2 path params, a context-setting fang on one mount, handlers that reflect method, path, params, query, every header, payload length+hash and context presence), some with Connection: close or other Connection options, and a share of refused requests (400) in between; each request delivered as one segment, the next only after the previous response. Executed (a) through the session loop re-stated over a scripted reader (real clear/read/handle/send) and (b) for a quarter of the cases through the real Session::manage over a socketpair. Oracle (metamorphic): the bytes of the k-th response equal the bytes the same request produces alone on a fresh connection (clock frozen); order preserved; nothing after Connection: close. Non-trivial = k ≥ 2 and an earlier request had a body, a custom header or set a context entry; distinct by case.";
     const ASSUMPTIONS: &'static [&'static str] = &[
         "request heads stay below the 1 KiB buffer (the quantifier varies body sizes)",
-        "Connection values other than close/Close/keep-alive are not generated",
+        "Connection values: close, Close, keep-alive, Keep-Alive, TE, `keep-alive, TE`, `Upgrade, HTTP2-Settings`, upgrade; lists naming close and other spellings of close (CLOSE) are not generated (the code compares with close/Close only, RFC 9110 compares case-insensitively: either reading would be defensible)",
+        "8% of the requests are refused ones (CR in a header name, a header line without a colon, a non-numeric Content-Length; no body): the expected answer is the 400 the same bytes get alone, and the connection goes on",
         "the socketpair poses as a TcpStream; the kernel's TCP stack is not exercised",
     ];
 
@@ -107,10 +128,10 @@ impl Property for C05 {
         2000
     }
     fn in_domain(&self, case: &Case) -> bool {
-        !case.requests.is_empty() && case.requests.iter().all(wreq_in_domain)
+        !case.requests.is_empty() && case.requests.iter().all(|w| wreq_in_domain(w) || is_poison(w))
     }
     fn strategy(&self, tier: Tier) -> BoxedStrategy<Case> {
-        (vec(echo_wreq(), 1..=6), prop::bool::weighted(tier.pick(0.03, 0.15))).prop_map(|(requests, real_session)| Case { requests, real_session }).boxed()
+        (vec(echo_wreq(), 1..=6), prop::bool::weighted(tier.pick(0.25, 0.3))).prop_map(|(requests, real_session)| Case { requests, real_session }).boxed()
     }
 
     fn check(&self, case: &Case, obs: &mut Obs) {
@@ -125,6 +146,10 @@ impl Property for C05 {
         for b in &bytes {
             match drive::drive_one(&self.router, b) {
                 Ok(ex) if ex.outcome == ReadOutcome::Handled => solo.push(ex.wire),
+                Ok(ex) if ex.outcome == ReadOutcome::Refused && is_poison(&case.requests[solo.len()]) => {
+                    obs.label("refused-request-in-sequence");
+                    solo.push(ex.wire)
+                }
                 Ok(ex) => {
                     obs.fail("solo-request-not-handled", format!("{:?} alone on a fresh connection: {:?}", String::from_utf8_lossy(&b[..b.len().min(120)]), ex.outcome));
                     return;
@@ -135,7 +160,8 @@ impl Property for C05 {
                 }
             }
         }
-        let close_at = case.requests.iter().position(|w| wants_close(w) == Some(true));
+        // a refused request is answered with 400 and the connection stays open, whatever its Connection header said
+        let close_at = case.requests.iter().position(|w| !is_poison(w) && wants_close(w) == Some(true));
         let expected: Vec<&Vec<u8>> = match close_at {
             Some(i) => solo[..=i].iter().collect(),
             None => solo.iter().collect(),
